@@ -124,7 +124,27 @@ const c43Split = 24 * time.Hour
 
 // key asks the real generator. start/end are the same for both requests of a pair.
 func (r c43Req) key(start, end int64) string {
+	return newThanosCacheKeyGenerator().GenerateCacheKey(r.tenant, r.request(start, end))
+}
+
+// lookupKeys returns every key the results cache looks the request up under: its own key and, for
+// range requests, the alternative keys of lower common steps.
+func (r c43Req) lookupKeys(start, end int64) []string {
 	g := newThanosCacheKeyGenerator()
+	req := r.request(start, end)
+	return append([]string{g.GenerateCacheKey(r.tenant, req)}, g.GenerateCacheKeyAlternatives(r.tenant, req)...)
+}
+
+// sameButStep: b is a with another step (the only kind of request an alternative key may denote).
+func c43SameButStep(a, b c43Req) bool {
+	if a.kind != "range" || b.kind != "range" {
+		return false
+	}
+	b.step = a.step
+	return a.canon() == b.canon()
+}
+
+func (r c43Req) request(start, end int64) queryrange.Request {
 	var req queryrange.Request
 	switch r.kind {
 	case "range":
@@ -149,7 +169,7 @@ func (r c43Req) key(start, end int64) string {
 	if !shouldCache(req) {
 		panic("harness: generated request is not cacheable")
 	}
-	return g.GenerateCacheKey(r.tenant, req)
+	return req
 }
 
 // ---- generators --------------------------------------------------------------------------------
@@ -387,6 +407,19 @@ func c43Check(a, b c43Req, start, end int64) string {
 	if ka == kb {
 		return fmt.Sprintf("two requests that differ map to the same results-cache key %q\n  a: %s\n  b: %s", ka, a, b)
 	}
+	// The cache also looks a range request up under the keys of lower common steps. Such a key may
+	// only be the key of the same request at another step, never of a request that differs otherwise.
+	for _, x := range [][2]c43Req{{a, b}, {b, a}} {
+		if c43SameButStep(x[0], x[1]) {
+			continue
+		}
+		other := x[1].key(start, end)
+		for _, k := range x[0].lookupKeys(start, end)[1:] {
+			if k == other {
+				return fmt.Sprintf("a request is looked up under the results-cache key %q of a request that differs in more than the step\n  looked up: %s\n  owner of the key: %s", k, x[0], x[1])
+			}
+		}
+	}
 	return ""
 }
 
@@ -467,6 +500,15 @@ func TestVerifC43(t *testing.T) {
 				}
 				a.tenant, b.query = a.tenant+":"+x, bq
 				classes = append(classes, "concat-tenant-query")
+				if rapid.Bool().Draw(rt, "lowerStepOwner") {
+					// b is cached at a lower common step that divides a's step: a is then also looked up
+					// under b-like keys (alternative keys), which must still keep the two tenants apart
+					a.step = rapid.SampledFrom([]int64{60000, 300000, 3600000}).Draw(rt, "aStep")
+					b.step = rapid.SampledFrom([]int64{1000, 15000, 30000}).Draw(rt, "bStep")
+					start -= start % 30000
+					end = start + (end-start)/a.step*a.step
+					classes = append(classes, "concat-tenant-query-lower-step")
+				}
 			case kind == "labels":
 				y := rapid.StringMatching(`[abc][abc01]{0,3}`).Draw(rt, "y")
 				a.tenant, a.label = b.tenant+":"+x, y
